@@ -15,14 +15,20 @@ use std::path::{Path, PathBuf};
 // Pools
 
 pub fn author(i: u8) -> String {
-    // four fixed "public keys" (the store does not verify events)
-    let b = match i % 4 {
-        0 => 0xA1u8,
-        1 => 0xB2,
-        2 => 0xC3,
-        _ => 0xD4,
+    // four fixed "public keys" (the store does not verify events). Two pairs collide in one half: key 3 shares its
+    // first 16 bytes with key 0, key 2 its last 16 bytes with key 1 - a comparison or an index key that looks at
+    // part of a key confuses them.
+    let (hi, lo) = match i % 4 {
+        0 => (0xA1u8, 0xA1u8),
+        1 => (0xB2, 0xB2),
+        2 => (0xC3, 0xB2),
+        _ => (0xA1, 0xD4),
     };
-    hex(&[b; 32])
+    let mut k = [hi; 32];
+    for b in k.iter_mut().skip(16) {
+        *b = lo;
+    }
+    hex(&k)
 }
 
 pub fn p182() -> String {
@@ -54,6 +60,11 @@ pub fn d_pool() -> Vec<String> {
         ":".into(),
         format!("{}1", "w".repeat(480)),
         format!("{}2", "w".repeat(480)),
+        // identifiers with white space at either end ("x" is in the pool too)
+        "x ".into(),
+        " x".into(),
+        "x\n".into(),
+        " ".into(),
         // identifiers that are, or contain, a pool author's key (lists / records about somebody)
         author(1),
         format!("about:{}", author(2)),
@@ -291,6 +302,9 @@ pub enum DelTarget {
     /// a tag that is NOT a deletion target although it carries the id (or the address) of the i-th earlier event
     /// written by the requester (any event if there is none): upper-case E / A (NIP-22 root references), q, P, ...
     Decoy { name: u8, of: u16, by_addr: bool },
+    /// somebody else's event that mentions the requester's key in one of its tags (a gift wrap addressed to the
+    /// requester, a reply, a list entry): still somebody else's
+    EAboutMe(u16),
     /// an `a` tag spelled from the kind, author and first d value of the i-th earlier event of the requester,
     /// whatever its kind (a regular or ephemeral kind has no address: the tag names nothing)
     AOfAny(u16),
@@ -387,6 +401,7 @@ pub fn del_target() -> BoxedStrategy<DelTarget> {
         3 => (any::<u8>(), any::<u16>(), any::<bool>()).prop_map(|(name, of, by_addr)| DelTarget::Decoy { name, of, by_addr }),
         2 => (any::<u16>(), any::<bool>(), any::<bool>()).prop_map(|(of, foreign, claim_own)| DelTarget::ELong { of, foreign, claim_own }),
         3 => any::<u16>().prop_map(DelTarget::AOfAny),
+        3 => any::<u16>().prop_map(DelTarget::EAboutMe),
     ]
     .boxed()
 }
@@ -453,7 +468,7 @@ pub fn op_strategy(w: OpWeights, cfg: EvCfg) -> BoxedStrategy<Op> {
     ));
     // very large events only where the event map grows in 4 MiB steps (release profile)
     if !cfg!(debug_assertions) && w.big > 0 {
-        v.push((w.big, (prop::sample::select(vec![300u16, 700, 1500, 2500, 4100]), 0u8..cfg.authors).prop_map(|(kb, author)| Op::Big { kb, author }).boxed()));
+        v.push((w.big, (prop_oneof![80 => prop::sample::select(vec![300u16, 700, 1500, 2500, 4100]), 1 => prop::sample::select(vec![8_300u16, 16_400, 17_000, 33_000])], 0u8..cfg.authors).prop_map(|(kb, author)| Op::Big { kb, author }).boxed()));
     }
     // boundary-directed sizes: fill the event map exactly, or leave one or two alignment units
     v.push(((w.store + 5) / 6, (prop::sample::select(vec![0u8, 0, 8, 16, 24]), 0u8..cfg.authors).prop_map(|(slack, author)| Op::FillTo { slack, author }).boxed()));
@@ -914,6 +929,13 @@ impl World {
                             (true, Some((k, a, d))) => tags.push(vec![name, format!("{k}:{a}:{d}")]),
                             _ => tags.push(vec![name, target.id.clone()]),
                         }
+                    }
+                }
+                DelTarget::EAboutMe(i) => {
+                    let me = author(author_i);
+                    let cands: Vec<&MEvent> = self.events.iter().filter(|e| e.pubkey != me && e.tags.iter().flatten().any(|s| s.to_lowercase().contains(&me))).collect();
+                    if !cands.is_empty() {
+                        tags.push(vec!["e".to_string(), cands[idx16(*i, cands.len())].id.clone()]);
                     }
                 }
                 DelTarget::AOfAny(i) => {
